@@ -17,6 +17,7 @@ def analyse(ctx: CheckContext, p: Program):
                                         "OpenPinch.analysis.indirect_integration_entry", "OpenPinch.analysis.direct_integration_entry")))
     bk.check_assignment_booking(ctx, p, r)
     bk.check_zone_sum(ctx, p, r)
+    bk.check_default_filter(ctx, p, r)
     bk.check_name_match(ctx, p, r, _funcs(p, ("OpenPinch.analysis.utility_targeting", "OpenPinch.analysis.indirect_integration_entry")))
 
 
@@ -26,6 +27,7 @@ def run(ctx: CheckContext):
     ctx.floor("WRAP", 4)
     ctx.floor("PAIR-1", 3)
     ctx.floor("ACC", 7)
+    ctx.floor("DEFAULT-FILTER", 2)
     ctx.assumptions += [
         "decides index wrap-around of the per-side segment, booking of every assigned duty and alignment of the per-utility zone sums; whether a utility can reach the process "
         "temperatures, default-utility placement and the pocket-free profile's values are numeric and NOT decided",
@@ -36,5 +38,7 @@ def run(ctx: CheckContext):
     run_control(ctx, "C03/duty-not-booked", analyse, p.root, ut, "            u.set_heat_flow(Q_ut_max)\n            Q_assigned += Q_ut_max\n", "            u.set_heat_flow(Q_ut_max)\n", "PAIR-1")
     run_control(ctx, "C03/per-utility-index", analyse, p.root, ind,
                 "cold_utilities[j].heat_flow + t.cold_utilities[j].heat_flow", "cold_utilities[j].heat_flow + t.hot_utilities[j].heat_flow", "ACC")
+    run_control(ctx, "C03/inactive-utility-suppresses-default", analyse, p.root, "OpenPinch/analysis/data_preparation.py",
+                'utility.type in ["Cold", "Both"]\n            and utility.active\n', 'utility.type in ["Cold", "Both"]\n', "DEFAULT-FILTER")
     run_control(ctx, "C03/twin-explicit-sum", analyse, p.root, ind, "        cold_utility_target += t.cold_utility_target\n",
                 "        cold_utility_target = cold_utility_target + t.cold_utility_target\n", "ACC", expect_fire=False)
